@@ -383,10 +383,11 @@ def struct_cases(draw, tier):
         c['signals'] = {v: [[k, draw(F.values())] for k in ks] for v in c['vars']}
     else:
         c['trace'] = {v: c['trace'][v] for v in c['vars']}
+    c['outfield'] = draw(st.sampled_from([None, None, 'value', 'value']))
     return c
 
 
-def run_struct(kind, f, vs, data, paths, structured, sem=None, objio=None):
+def run_struct(kind, f, vs, data, paths, structured, sem=None, objio=None, outfield=None):
     from ..structs import Msg, PATHS
     dense = kind.startswith('ct')
     base = {'dt_off': 'dt_off', 'dt_on': 'dt_on', 'dt_on_past': 'dt_on', 'ct_off': 'ct_off', 'ct_on': 'ct_on'}[kind]
@@ -398,6 +399,9 @@ def run_struct(kind, f, vs, data, paths, structured, sem=None, objio=None):
         return tuple(rn(x) if isinstance(x, tuple) else x for x in g)
     g = rn(f)
     text = dense_text(g, Q) if dense else 'out = ' + show(g)
+    if structured and outfield:
+        # the requirement writes its verdict into a field of an object-valued output variable: res.value = ...
+        text = 'res.%s = %s' % (outfield, text.split('=', 1)[1].strip())
     objs = sorted(set(paths[v][0] for v in vs))
     if sem:
         base = base[:2]           # interface-aware semantics: the combined classes
@@ -405,6 +409,8 @@ def run_struct(kind, f, vs, data, paths, structured, sem=None, objio=None):
         if structured:
             spec = build(base, text, [], parse=False, semantics=sem)
             spec.import_module('vlib.structs', 'Msg')
+            if outfield:
+                spec.declare_var('res', 'Msg')
             for o in objs:
                 spec.declare_var(o, 'Msg')
                 if objio and objio.get(o):
@@ -439,7 +445,17 @@ def run_struct(kind, f, vs, data, paths, structured, sem=None, objio=None):
             args = [[o, [[t, obj_at(o, lambda v: sig[v][j][1])] for j, t in enumerate(stamps)]] for o in objs]
         else:
             args = [[v, sig[v]] for v in vs]
-        return ('ok', spec.evaluate(*args) if kind == 'ct_off' else spec.update(*args))
+        if kind == 'ct_off':
+            return ('ok', spec.evaluate(*args))
+        # online: two update() calls (the samples up to the middle stamp, then the rest)
+        stamps_all = sorted(set(t for _n, s in args for t, _x in s))
+        mid = stamps_all[len(stamps_all) // 2]
+        first = [[n_, [p for p in s if p[0] <= mid]] for n_, s in args]
+        rest = [[n_, [p for p in s if p[0] > mid]] for n_, s in args]
+        out = list(spec.update(*first))
+        if any(s for _n, s in rest):
+            out += list(spec.update(*rest))
+        return ('ok', out)
     except RecursionError:
         raise
     except Exception as e:  # noqa
@@ -461,8 +477,9 @@ def check_struct(case):
     plain = run_struct(kind, f, vs, data, case['paths'], False)
     if plain[0] != 'ok':
         return DISCARD('plain-raises(other lanes):' + plain[1], labels)
-    st_ = run_struct(kind, f, vs, data, case['paths'], True)
-    desc = 'monitor %s\nspec over plain variables: %s\nfield paths: %s\ndata: %s' % (kind, show(f), {v: '.'.join(case['paths'][v]) for v in vs}, {v: data[v] for v in vs})
+    st_ = run_struct(kind, f, vs, data, case['paths'], True, outfield=case.get('outfield'))
+    desc = 'monitor %s\nspec over plain variables: %s\nfield paths: %s%s\ndata: %s' % (kind, show(f), {v: '.'.join(case['paths'][v]) for v in vs},
+                                                                                       '; the verdict is written to res.%s' % case['outfield'] if case.get('outfield') else '', {v: data[v] for v in vs})
     if st_[0] != 'ok':
         return FAIL('crash:struct:%s:%s@%s' % (kind, st_[1], st_[4].split(':')[-1]), desc + '\nwith the variables as fields of Msg objects: raised %s: %s at %s\nplain variables: %r' % (
             st_[1], st_[3], st_[4], plain[1]), labels)
